@@ -1,9 +1,12 @@
 package saml
 
 import (
+	"bytes"
 	"crypto/rand"
 	"io"
 	"time"
+
+	"github.com/beevik/etree"
 
 	dsig "github.com/russellhaering/goxmldsig"
 )
@@ -29,4 +32,36 @@ func randomBytes(n int) []byte {
 		panic(err)
 	}
 	return rv
+}
+
+// documentBytes serializes doc for the wire.
+//
+// etree writes a carriage return inside text or an attribute value literally.
+// An XML parser reads a literal CR back as a line feed, whereas the canonical
+// form over which signatures are computed spells it &#xD;, so a value
+// containing a CR would reach the receiver altered: the signature no longer
+// verifies or, under an enclosing signature, the value silently changes. The
+// character reference is the exact spelling of a CR in both positions, which
+// are the only places one can occur in the element trees we serialize (built by
+// the Element methods, or parsed from XML, where literal CRs have already been
+// normalized away).
+func documentBytes(doc *etree.Document) ([]byte, error) {
+	buf, err := doc.WriteToBytes()
+	if err != nil {
+		return nil, err
+	}
+	if bytes.IndexByte(buf, '\r') >= 0 {
+		buf = bytes.ReplaceAll(buf, []byte("\r"), []byte("&#xD;"))
+	}
+	return buf, nil
+}
+
+// writeDocument writes what documentBytes returns to w.
+func writeDocument(doc *etree.Document, w io.Writer) (int64, error) {
+	buf, err := documentBytes(doc)
+	if err != nil {
+		return 0, err
+	}
+	n, err := w.Write(buf)
+	return int64(n), err
 }
